@@ -6,6 +6,8 @@ parser.ParseReader / parser.ParseFrugal) and by the Coq model (Gen/Grammar.v run
 interpreter with the transcribed actions, Judge/JParser.v); parse trees and error lists must
 agree exactly.  Direct oracle (no model): parse(render(model)) == canon(model) on the real
 parser, and the `-gen json` descriptor agrees with the model as an independent second view.
+Static: grammar.peg and the generated grammar.peg.go (what runs, and what Gen/Grammar.v is regenerated
+from) must describe the same parser (props/c10_pegsync.py); any difference is a violation.
 """
 import json
 import os
